@@ -1,5 +1,5 @@
 SPECIFICATION Spec
-CONSTANTS Names = {"T", "Tabby_2"} Vers <- VersQuick SubjectPorts = {0, 7509} ServicePorts = {0, 430}
+CONSTANTS Names = {"T", "Tabby_2", "x9", "A_"} Vers <- VersThorough SubjectPorts = {0, 1, 7509, 6143, 8191} ServicePorts = {0, 1, 430, 511}
 CONSTANTS AsFoundJoin = FALSE AsFoundOrder = FALSE
 INVARIANT IdentityShape
 INVARIANT PartsShape
